@@ -12,8 +12,9 @@ C07 driver.  Ops:
         -> err-decode | err-sender | <source> <target> <nonce> <chainId> <data> <hash> <extraData>
   ser  (same tx fields as vt without cfg)            -> hex of the hashed byte string
 
-oracle tokens:  sha=<pre>,<digest>   kec=<pre>,<digest>   rec=<msg>,<sig65>,<pub65|err>
-                ver=<pub>,<msg>,<sig64>,<0|1>
+oracle tokens:  sha=<pre>,<digest>   kec=<pre>,<digest>
+                rec=<msg>,<r>,<s>,<recid 0..3>,<pub65|err>      curve-level recovery, 1 ≤ r,s < N
+                ver=<pub>,<msg>,<r>,<s>,<0|1>                   curve-level ECDSA equation, 1 ≤ r,s < N
 Strings are hex of their bytes ("-" empty).  Every crypto answer the model
 needs must be on the line, otherwise the answer is `oracle-miss` (never a default).
 -/
@@ -23,8 +24,8 @@ open Rangers Rangers.Model.TxAuth
 structure Tables where
   sha : List (Bytes × Bytes) := []
   kec : List (Bytes × Bytes) := []
-  rcv : List ((Bytes × Bytes) × Option Bytes) := []
-  ver : List ((Bytes × Bytes × Bytes) × Bool) := []
+  rcv : List ((Bytes × Nat × Nat × Nat) × Option Bytes) := []
+  ver : List ((Bytes × Bytes × Nat × Nat) × Bool) := []
 
 def lookup {α β : Type} [BEq α] (t : List (α × β)) (k : α) : Option β :=
   (t.find? (fun p => p.1 == k)).map (·.2)
@@ -32,20 +33,20 @@ def lookup {α β : Type} [BEq α] (t : List (α × β)) (k : α) : Option β :=
 def Tables.crypto (t : Tables) : Crypto :=
   { sha256 := fun m => (lookup t.sha m).getD []
     keccak := fun m => (lookup t.kec m).getD []
-    recover := fun m s => (lookup t.rcv (m, s)).getD none
-    verify := fun pk m s => (lookup t.ver (pk, m, s)).getD false }
+    recoverCore := fun m r s v => (lookup t.rcv (m, r, s, v)).getD none
+    verifyCore := fun pk m r s => (lookup t.ver (pk, m, r, s)).getD false }
 
 def Tables.has (t : Tables) : Query → Bool
   | .sha m => (lookup t.sha m).isSome
   | .kec m => (lookup t.kec m).isSome
-  | .rcv m s => (lookup t.rcv (m, s)).isSome
-  | .ver pk m s => (lookup t.ver (pk, m, s)).isSome
+  | .rcv m r s v => (lookup t.rcv (m, r, s, v)).isSome
+  | .ver pk m r s => (lookup t.ver (pk, m, r, s)).isSome
 
 def queryName : Query → String
   | .sha m => "sha " ++ toHex m
   | .kec m => "kec " ++ toHex m
-  | .rcv m s => "rec " ++ toHex m ++ " " ++ toHex s
-  | .ver pk m s => "ver " ++ toHex pk ++ " " ++ toHex m ++ " " ++ toHex s
+  | .rcv m r s v => "rec " ++ toHex m ++ " " ++ toString r ++ " " ++ toString s ++ " " ++ toString v
+  | .ver pk m r s => "ver " ++ toHex pk ++ " " ++ toHex m ++ " " ++ toString r ++ " " ++ toString s
 
 def hexList? : List String → Option (List Bytes)
   | [] => some []
@@ -65,16 +66,18 @@ def addOracle (t : Tables) (tok : String) : Option Tables :=
     | "kec", [a, b] => do
       let a ← ofHex? a; let b ← ofHex? b
       pure { t with kec := t.kec ++ [(a, b)] }
-    | "rec", [m, s, p] => do
-      let m ← ofHex? m; let s ← ofHex? s
-      if p == "err" then pure { t with rcv := t.rcv ++ [((m, s), none)] }
+    | "rec", [m, r, s, v, p] => do
+      let m ← ofHex? m; let r ← ofHex? r; let s ← ofHex? s; let v ← v.toNat?
+      let k := (m, beToNat r, beToNat s, v)
+      if p == "err" then pure { t with rcv := t.rcv ++ [(k, none)] }
       else do
         let p ← ofHex? p
-        pure { t with rcv := t.rcv ++ [((m, s), some p)] }
-    | "ver", [p, m, s, r] => do
-      let p ← ofHex? p; let m ← ofHex? m; let s ← ofHex? s
-      if r == "1" then pure { t with ver := t.ver ++ [((p, m, s), true)] }
-      else if r == "0" then pure { t with ver := t.ver ++ [((p, m, s), false)] }
+        pure { t with rcv := t.rcv ++ [(k, some p)] }
+    | "ver", [p, m, r, s, res] => do
+      let p ← ofHex? p; let m ← ofHex? m; let r ← ofHex? r; let s ← ofHex? s
+      let k := (p, m, beToNat r, beToNat s)
+      if res == "1" then pure { t with ver := t.ver ++ [(k, true)] }
+      else if res == "0" then pure { t with ver := t.ver ++ [(k, false)] }
       else none
     | _, _ => none
   | _ => none
